@@ -71,6 +71,15 @@ type NamedStrT string
 
 func (s NamedStrT) MarshalText() ([]byte, error) { return []byte("nst:" + string(s)), nil }
 
+// IntKT: integer kind with MarshalText. As a map key the text form is used
+// (and the entries are sorted by it, not by the number or its decimal form):
+// the text order is the reverse of the numeric order for small values.
+type IntKT int
+
+func (k IntKT) MarshalText() ([]byte, error) {
+	return []byte("t" + strconv.Itoa(1000-int(k))), nil
+}
+
 type NamedStr string
 type NamedInt int
 type NamedBool bool
@@ -411,7 +420,7 @@ func reg(v any) {
 }
 
 // EncodeOnly: corpus types without a faithful decoder (marshal-side tests only).
-var EncodeOnly = map[string]bool{"MVal": true, "MPtr": true, "TVal": true, "TPtr": true, "MBoth": true, "MRaw": true, "NamedStrT": true, "ByteM": true, "ByteT": true, "SE5": true, "SE6": true, "PHold": true, "SAB": true,
+var EncodeOnly = map[string]bool{"MVal": true, "MPtr": true, "TVal": true, "TPtr": true, "MBoth": true, "MRaw": true, "NamedStrT": true, "IntKT": true, "ByteM": true, "ByteT": true, "SE5": true, "SE6": true, "PHold": true, "SAB": true,
 	"ArrMPtr": true, "ArrTwice": true, "MArrFirst": true, "SE10": true, "SE11": true, "ChanM": true, "FuncT": true, "KPS": true, "HPS": true}
 
 // InterfaceTypes: corpus entries that are non-empty interface types.
@@ -425,6 +434,7 @@ func init() {
 	reg(MBoth{})
 	reg(MRaw{})
 	reg(NamedStrT(""))
+	reg(IntKT(0))
 	reg(NamedStr(""))
 	reg(NamedInt(0))
 	reg(NamedBool(false))
